@@ -99,7 +99,11 @@ def judge(logic, text, acc, toks=None, want_nontrivial=None):
         # a rejected string stays rejected when the caller tries the same parser again
         r2 = call(P, text)
         if not (r2[0] == 'exc' and r2[1] == res[1]):
-            acc.violation('accepted-after-rejection', case, res[1], r2[:2] if r2[0] == 'exc' else 'returned ' + repr(r2[1])[:60])
+            try:
+                shown = 'returned ' + repr(r2[1])[:60]
+            except Exception:   # a very deep formula cannot even be printed
+                shown = 'returned an object of type %s' % type(r2[1]).__name__
+            acc.violation('accepted-after-rejection', case, res[1], r2[:2] if r2[0] == 'exc' else shown)
         return False
     obj = res[1]
     r = call(lib.read, obj)
